@@ -33,7 +33,7 @@ def _rconn():
         "_recv_buffer": T.Const(b""), "_recv_data_stream": T.Bytes(maxlen=64),
         "_recv_data_available": T.Sync("event", flag=T.Bool()), "write_mode_on": T.Sync("event"),
         "read_mode_on": T.Sync("event", flag=True), "lock": T.Sync("lock"),
-        "sock": T.Obj(FakeSock, idict={"wire": T.Const(b""), "inbound": T.Bytes(maxlen=64)}),
+        "sock": T.Obj(FakeSock, idict={"wire": T.Const(b""), "inbound": T.Bytes(maxlen=64), "failed": T.Const(False)}),
         "sock_id": T.Const("0"), "selector": selector(),
         "is_connected": T.Const(True), "_stop_threads": T.Const(False), "error_has_raised": T.Const(False),
         "events": T.ListOf(), "tracking_events_count": T.Const(0), "events_mask": T.Const(1)})
@@ -43,10 +43,15 @@ def snap_in(self):
     return ghost_set("in0", self._recv_data_stream + self.sock.inbound) and ghost_set("got0", self._recv_data_stream)
 
 
-@contract("bromelia.transport.TcpConnection.read", prop="C04", name="_")
+@contract("bromelia.transport.TcpConnection.read", prop="C04", name="_", also=("C06",))
 class _Read:
     args = {"self": _rconn()}
     snapshot_spec = snap_in
+
+    def ensures_a_failed_recv_is_the_peer_disconnect_signal(self):
+        # whatever recv() raises (a reset by the peer included), nothing escapes -- the transport thread lives on
+        # to close the socket -- and the state machine's peer-disconnect signal is raised (C06)
+        return implies(self.sock.failed, self._stop_threads == True and self.error_has_raised == True)
 
     def ensures_bytes_appended_in_order_none_lost(self):
         return self._recv_data_stream + self.sock.inbound == ghost_get("in0") and len(self._recv_buffer) == 0
